@@ -780,6 +780,45 @@ def ct_compare_rule(rep, u):
 
 # ------------------------------------------------------------------ run
 
+def verify_rule(rep, u, fname="radius_pkt_verify"):
+    """radius_pkt_verify accepts (returns 0) exactly when every applicable check accepted: the Request/Response Authenticator
+    check always, the Message-Authenticator check whenever the attribute is present.  Evaluated over all outcomes of the
+    callees (attribute found / not found, each check passes / fails)."""
+    fn = u.fn(fname)
+    if fn is None or not fn.has_cfg:
+        raise driver.AnalysisBroken("anchor %s vanished" % fname)
+    rep.functions.add(fname)
+    called = {c.get("fn") for _, _, c, _ in fn.calls()}
+    for cal in ("radius_pkt_attr_find", "radius_pkt_attr_msg_authenticator_chk", "radius_pkt_authenticator_chk"):
+        if cal not in called:
+            rep.violated("R-MPT", fn, "verify-checks", "radius_pkt_verify consults %s" % cal, "no call")
+            return 1
+    n = 0
+    bad = undec = None
+    pn = [p["n"] for p in fn.params]
+    for found, ma_ok, au_ok in itertools.product((True, False), (True, False), (True, False)):
+        pe = r_stride.PE(u, call_default={"radius_pkt_attr_find": 0 if found else 2, "radius_pkt_attr_msg_authenticator_chk": 0 if ma_ok else 80,
+                                           "radius_pkt_authenticator_chk": 0 if au_ok else 80, "radius_pkt_attr_find_raw": 2,
+                                           "radius_pkt_attr_password_decode": 0})
+        bind = {pn[0]: 0x10000, pn[1]: 0x20000, pn[2]: 8, pn[3]: 0x30000}
+        outs = pe.outcomes(fn, bind, 0)
+        vals = {v for v, s_ in outs}
+        n += 1
+        what = "Message-Authenticator %s%s, authenticator check %s" % ("present" if found else "absent",
+                                                                        (", its check %s" % ("passes" if ma_ok else "fails")) if found else "",
+                                                                        "passes" if au_ok else "fails")
+        want_ok = au_ok and (ma_ok or not found)
+        if None in vals:
+            undec = undec or "%s: result not computable" % what
+        elif want_ok and vals != {0}:
+            bad = bad or "%s: returns %s instead of 0" % (what, sorted(vals))
+        elif not want_ok and 0 in vals:
+            bad = bad or "%s: the packet is accepted (returns 0)" % what
+    desc = "radius_pkt_verify returns 0 exactly when the authenticator check and - if the attribute is present - the Message-Authenticator check both pass"
+    (rep.violated if bad else rep.undecided if undec else rep.proved)("R-MPT", fn, "verify-checks", desc, bad or undec or "%d outcome combinations" % n)
+    return n
+
+
 def run(rep, tier):
     us = driver.load_units(specs())
     rep.use_units(us)
@@ -800,6 +839,7 @@ def run(rep, tier):
     counter_rule(rep, ud)
     rep.floor("DNS header accessors", accessor_siblings(rep, ud), 16)
     ct_compare_rule(rep, ur)
+    rep.floor("verify outcome combinations", verify_rule(rep, ur), 8)
     nwf = nacc = 0
     for lab, u in us.items():
         fns_ = [f for f in u.function_list if f.file.startswith(core.REPO + "/")]
